@@ -553,7 +553,7 @@ pub fn expect_mbi(region: &[u8], opts: &ExpectOpts) -> Expected {
     }
     {
         let n = w.items.len();
-        let mut ks = vec![0usize, 1, 2, n / 2, n.saturating_sub(1), n, n + 1];
+        let mut ks = vec![0usize, 1, 2, n / 2, n.saturating_sub(1), n, n + 1, n + 2, n + 3, n + 9];
         ks.sort_unstable();
         ks.dedup();
         for k in ks {
